@@ -114,6 +114,19 @@ pub fn cases(rng: &mut Rng, count: usize, _tier: &str) -> Vec<Case> {
         o.max_records = 6;
         let mut tags = vec![];
         let (w, f) = world::gen_world(rng, o, &mut tags);
+        // the same id supplied again, under another name: the first definition stays, the term exists once
+        let w = match w {
+            world::World::Builder(mut s) if !s.terms.is_empty() && rng.chance(1, 3) => {
+                for _ in 0..rng.range(1, 2) {
+                    let (id, name) = rng.pick(&s.terms).clone();
+                    let at = rng.below(s.terms.len() as u64 + 1) as usize;
+                    s.terms.insert(at, (id, format!("{name} again")));
+                }
+                tags.push("id_added_twice");
+                world::World::Builder(s)
+            }
+            w => w,
+        };
         let mut probes: Vec<u32> = vec![10_000_002, 10_000_003, 1 << 24, 1 << 31, u32::MAX - 1, u32::MAX];
         for _ in 0..4 {
             probes.push(rng.range(10_000_002, u64::from(u32::MAX)) as u32);
